@@ -6,12 +6,12 @@ From Coq Require Import ZArith List Bool Arith.
 From EV Require Import Base.Arith Model.KrylovExp Proofs.KrylovExpProofs.
 
 (* Control contract of krylov_exp_impl, for EVERY arithmetic [ar] (binary64 or reals), every oracle
-   stream n2/err1/err2/err2c, both variants of the estimate ([fixed]) and every max_krylov_dim >= 1: it returns normally (the constructor assert never
+   stream n2/err1/err2/err2c, all three variants of the estimate ([fixed]) and every max_krylov_dim >= 1: it returns normally (the constructor assert never
    fires); converged = true iff some iteration j < max_dim had n2_j < norm_tol or err_j < exp_tol;
    then iteration_count is the least such j plus one and happy_breakdown says whether that iteration
    stopped on n2_j < norm_tol; otherwise iteration_count = max_dim; happy_breakdown -> converged. *)
 Theorem C07_converged_iff_estimate :
-  forall (A : Type) (ar : Arith A) (fixed : bool) (n2 err1 err2 err2c : nat -> A) (norm_tol exp_tol : A) (max_dim : nat),
+  forall (A : Type) (ar : Arith A) (fixed : variant) (n2 err1 err2 err2c : nat -> A) (norm_tol exp_tol : A) (max_dim : nat),
   0 < max_dim ->
   exists r, kexp_impl ar fixed n2 err1 err2 err2c norm_tol exp_tol max_dim = Ok r /\
     (k_converged r = true <->
@@ -25,7 +25,7 @@ Proof. exact kexp_impl_spec. Qed.
 
 (* max_krylov_dim = 0: the loop body never runs and the tail reads the unbound local `expd`. *)
 Theorem C07_max_dim_zero_raises :
-  forall (A : Type) (ar : Arith A) (fixed : bool) (n2 err1 err2 err2c : nat -> A) (norm_tol exp_tol : A),
+  forall (A : Type) (ar : Arith A) (fixed : variant) (n2 err1 err2 err2c : nat -> A) (norm_tol exp_tol : A),
   kexp_impl ar fixed n2 err1 err2 err2c norm_tol exp_tol 0 = Err E_UNBOUND.
 Proof. exact kexp_impl_zero. Qed.
 
@@ -33,7 +33,7 @@ Proof. exact kexp_impl_zero. Qed.
    result) iff some iteration triggered; in every other case it raises (RecursionError, or the
    UnboundLocalError of max_dim = 0) — it never returns a vector from a non-converged run. *)
 Theorem C07_public_raises_iff_not_converged :
-  forall (A : Type) (ar : Arith A) (fixed : bool) (n2 err1 err2 err2c : nat -> A) (norm_tol exp_tol : A) (max_dim : nat),
+  forall (A : Type) (ar : Arith A) (fixed : variant) (n2 err1 err2 err2c : nat -> A) (norm_tol exp_tol : A) (max_dim : nat),
   ((exists j, j < max_dim /\ trigger ar fixed n2 err1 err2 err2c norm_tol exp_tol j = true) ->
      exists r, kexp_public ar fixed n2 err1 err2 err2c norm_tol exp_tol max_dim = Ok r /\ k_converged r = true) /\
   (~ (exists j, j < max_dim /\ trigger ar fixed n2 err1 err2 err2c norm_tol exp_tol j = true) ->
@@ -48,7 +48,7 @@ Theorem C07_full_model_follows_control :
   forall (A : Type) (ar : Arith A) (K V : Type) (kone : K) (kmul : K -> K -> K) (ofreal : A -> K)
          (kabs : K -> A) (vzero : V) (vadd vsub : V -> V -> V) (vscale : K -> V -> V) (vdiv : V -> A -> V)
          (Aop : V -> V) (inner : V -> V -> K) (nrm : V -> A) (mexp : (nat -> nat -> K) -> nat -> nat -> K)
-         (fixed herm : bool) (norm_tol exp_tol n0 : A) (st0 : kstate K V) (d : A)
+         (fixed : variant) (herm : bool) (norm_tol exp_tol n0 : A) (st0 : kstate K V) (d : A)
          (fuel j : nat) (st : kstate K V) (k : kres) (r : V) (st' : kstate K V),
   ghost kone kmul ofreal kabs vzero vadd vsub vscale vdiv Aop inner nrm mexp herm st0 j = Ok st ->
   floop ar kone kmul ofreal kabs vzero vadd vsub vscale vdiv Aop inner nrm mexp
@@ -79,7 +79,7 @@ Theorem C07_arnoldi_relation :
   (forall v, vscale kzero v = vzero) ->
   (forall u v, vadd (vsub u v) v = u) ->
   (forall w c, runit c -> vscale (ofreal c) (vdiv w c) = w) ->
-  forall (fixed : bool) (v : V) (herm : bool) (exp_tol norm_tol : A) (max_dim : nat) (k : kres) (r : V)
+  forall (fixed : variant) (v : V) (herm : bool) (exp_tol norm_tol : A) (max_dim : nat) (k : kres) (r : V)
          (st' : kstate K V),
   (forall c, a_ltb ar c norm_tol = false -> runit c) ->
   kexp_full ar kzero kone kmul ofreal kabs vzero vadd vsub vscale vdiv Aop inner nrm mexp
